@@ -473,7 +473,15 @@ def oracle(ctx, hints, effort):
         if k == 0:
             case.update(alt="asiras_lam", thickness=[0.2])      # a thin layer: one gate and a bit
         evals += 1
-        b = check_beer_lambert(case, int(rng.choice([1, 2, 5, 10, 20])))
+        os_ = int(rng.choice([1, 2, 5, 10, 20]))
+        if k in (1, 2):
+            # a layer ending 0.3 (k = 1) or 0.7 (k = 2) of a sub-gate after a sub-gate boundary: the last, partly filled sub-gate counts
+            os_ = k
+            case["thickness"] = [5.0]
+            zg = solver_inputs(case, dict(oversampling=os_, theta_inc_sampling=1), build(case))["zg"]
+            if len(zg) >= 2 and zg[1] > zg[0]:
+                case["thickness"] = [float((int(rng.integers(1, 6)) + (0.3 if k == 1 else 0.7)) * (zg[1] - zg[0]))]
+        b = check_beer_lambert(case, os_)
         if b:
             findings.append(to_finding(case, b))
     evals += 5
